@@ -16,6 +16,7 @@ import sys
 
 sys.path.insert(0, os.path.dirname(os.path.dirname(os.path.abspath(__file__))))
 sys.path.insert(0, os.path.dirname(os.path.abspath(__file__)))
+os.environ.setdefault("MPLBACKEND", "Agg")  # constellation plots are drawn off-screen
 
 import copy
 
@@ -112,8 +113,11 @@ def gen_case(run_seed: int, index: int, tier: str) -> dict:
                 rows *= s
             bits = [[rng.randrange(2) for _ in range(nsym * bps)] for _ in range(rows)]
             pre.append(["fwd", rng.choice(["mod", "both", "both"]), shape, bits])
-        else:
+        elif r < 0.93:
             pre.append(["reset", rng.choice(["mod", "demod", "both"])])
+        else:
+            # read-only use of the objects: plotting the constellation, printing, reading the state dict
+            pre.append(["inspect", rng.choice(["mod", "demod", "both"]), rng.choice(["plot", "plot", "repr", "state_dict"])])
     case["pre"] = pre
     # ---- the check step
     kind = rng.choice(["all_symbols", "all_pairs", "random", "random"]) if M <= 16 else rng.choice(["all_symbols", "random"])
@@ -129,7 +133,7 @@ def gen_case(run_seed: int, index: int, tier: str) -> dict:
         elif kind == "all_pairs":
             syms = _all_pairs_sequence(M, rng)
         else:
-            syms = [rng.randrange(M) for _ in range(rng.choice([2, 3, 4, 7, 16, 33, 64, 200]))]
+            syms = [rng.randrange(M) for _ in range(rng.choice([2, 3, 4, 7, 16, 33, 64, 200, 200, 300, 1024, 2500]))]
         seqs.append(_bits_for_symbols(syms, bps))
     L = min(len(s) for s in seqs)
     if long_dpsk:
@@ -144,10 +148,17 @@ def gen_case(run_seed: int, index: int, tier: str) -> dict:
                          "dtype": "float32", "noncontig": False}
         return case
     case["check"] = {"layout": layout, "kind": kind, "bits": [s[:L] for s in seqs],
-                     "dtype": rng.choice(["float32", "float32", "float64", "int64"]), "noncontig": rng.random() < 0.2,
+                     # bits arrive in whatever dtype the caller keeps them in (a dtype may be rejected, never answered wrongly)
+                     "dtype": rng.choice(["float32", "float32", "float32", "float64", "int64", "int32", "uint8", "int8", "bool", "float16", "bfloat16"]), "noncontig": rng.random() < 0.2,
                      # another user's frame of the same shape is modulated by the same object before this one is demodulated
-                     "frame_between": rng.random() < 0.3, "between_seed": rng.randrange(1 << 31)}
+                     "frame_between": rng.random() < 0.3, "between_seed": rng.randrange(1 << 31),
+                     # the user looks at the received symbols (scatter plot) before demodulating them
+                     "plot_in_flight": rng.random() < 0.04}
     return case
+
+
+BIT_DTYPES = {"float32": torch.float32, "float64": torch.float64, "int64": torch.int64, "int32": torch.int32, "uint8": torch.uint8, "int8": torch.int8,
+              "bool": torch.bool, "float16": torch.float16, "bfloat16": torch.bfloat16}
 
 
 def _expected(scheme, bps, row):
@@ -202,6 +213,21 @@ def execute(case: dict) -> RunResult:
                     if op[1] in (tgt, "both"):
                         obj.train(op[2])
                 res.faults["history.mode_toggle"] += 1
+            elif op[0] == "inspect":
+                for tgt, obj in (("mod", mod), ("demod", demod)):
+                    if op[1] in (tgt, "both"):
+                        if op[2] == "plot" and hasattr(obj, "plot_constellation"):
+                            import matplotlib.pyplot as plt
+
+                            try:
+                                obj.plot_constellation()
+                                res.faults["history.constellation_plotted"] += 1
+                            finally:
+                                plt.close("all")
+                        elif op[2] == "repr":
+                            repr(obj)
+                        else:
+                            obj.state_dict()
             elif op[0] == "reset":
                 for tgt, obj in (("mod", mod), ("demod", demod)):
                     if op[1] in (tgt, "both"):
@@ -233,7 +259,7 @@ def execute(case: dict) -> RunResult:
         res.probes["very_long_sequence_cases"] += 1
     nbits = len(rows[0])
     nsym = nbits // bps
-    x = torch.tensor(rows, dtype={"float32": torch.float32, "float64": torch.float64, "int64": torch.int64}[chk.get("dtype", "float32")])
+    x = torch.tensor(rows, dtype=BIT_DTYPES[chk.get("dtype", "float32")])
     if chk.get("noncontig") and x.shape[0] > 1:
         x = x.t().contiguous().t()  # same bits, non-contiguous memory
         res.probes["input.noncontiguous"] += 1
@@ -254,6 +280,22 @@ def execute(case: dict) -> RunResult:
             def forward(self, t, *a, **k):
                 tap.append(t.detach().clone())
                 tap.append(t)  # the very tensor the demodulator is given
+                if chk.get("plot_in_flight") and t.numel() <= 4096:
+                    import matplotlib.pyplot as plt
+
+                    from kaira.modulations.utils import plot_constellation as _plot
+
+                    try:
+                        _plot(t.flatten() if torch.is_complex(t) else torch.complex(t.flatten().float(), torch.zeros(t.numel())))
+                        res.faults["history.received_symbols_plotted_before_demodulation"] += 1
+                    except Exception:
+                        res.probes["plot_in_flight_raised"] += 1  # nothing is promised about the plot itself
+                    finally:
+                        plt.close("all")
+                    if not torch.equal(t, tap[0]):
+                        # judged by its consequence only: the bits demodulated from the symbols in flight (below)
+                        res.probes["received_symbols_changed_by_plotting"] += 1
+                        tap[0] = t.detach().clone()
                 if chk.get("frame_between"):
                     gb = torch.Generator().manual_seed(chk["between_seed"])
                     other = torch.randint(0, 2, tuple(x.shape), generator=gb).to(x.dtype)
@@ -278,7 +320,10 @@ def execute(case: dict) -> RunResult:
             if out2.shape != out.shape or not torch.equal(out2.to(torch.float64), out.to(torch.float64)):
                 violate("second_receiver", "a second, fresh demodulator given the same symbols returned different bits")
     except Exception as e:
-        violate(f"exception:{type(e).__name__}", f"raised {type(e).__name__}: {str(e)[:160]}")
+        if chk.get("dtype", "float32") not in ("float32", "float64", "int64"):
+            res.probes[f"rejected_dtype.{chk['dtype']}"] += 1  # narrow relaxation: an input type may be rejected
+        else:
+            violate(f"exception:{type(e).__name__}", f"raised {type(e).__name__}: {str(e)[:160]}")
         res.digest, res.n_events = log.digest(), len(log)
         return res
     log.add("check", {"symbols": sym, "out": out})
